@@ -121,13 +121,13 @@ pub fn run_case(cx: &mut UnitCtx, case: &Sx) -> String {
             }
             format!("(rcond [{}])", out.join(" "))
         }
-        // (umod MOD REFAID [ (mstep V VDT REFSTATE) .. ])
+        // (umod MOD REFAID EPS [ (mstep V VDT REFSTATE) .. ])
         "umod" => {
             let mut m = parse_mod(&a[0]);
             let refaid = a[1].int();
             let mut time = Time::<Virtual>::default();
             let mut out = vec![];
-            for st in a[2].list() {
+            for st in a[3].list() {
                 let (_, b) = st.app();
                 time.advance_by(secs(b[1].f64()));
                 let mut actions = ActionsData::default();
